@@ -544,7 +544,7 @@ class UfhController(Parent, DeviceHeat):  # UFC (02):
 
     @property
     def setpoints(self) -> dict | None:  # 22C9|ufh_idx array
-        if self._setpoints is None:
+        if self._setpoints is None or self._setpoints._expired:
             return None
 
         return {
